@@ -72,7 +72,7 @@ def assignRe (env : MEnv) (kind : String) (fuel : Nat) (at_ : Nat) (target2 : Va
   let hook := reenterHook at_ inner
   let st0 : St := { heap := h }
   match uv with
-  | .path s => assignAuxR env hook false .none kind (orig.length + 1) st0 target orig (.path s)
+  | .vs v => assignAuxR env hook false .none kind (orig.length + 1) st0 target orig v
   | .lit v =>
     match orig.getLast? with
     | none => (st0, .error .valueError)
